@@ -181,6 +181,7 @@ Proof.
     destruct (negb (is_active_node (rn r))); [apply IP_same; auto|].
     apply send_heartbeat_api_inv; auto; [lia|]. rewrite (Inv_devs _ _ _ _ HI). lia.
   - (* SendHeartbeat(iDev) *)
+    destruct (is_active_node (rn r)); cbn [andb]; [|apply IP_same; auto].
     destruct (valid_dev r idev) eqn:E; [|apply IP_same; auto].
     cbv zeta. apply osend_inv; auto. intros r1 H1. eapply IP_step; eauto.
     apply (send_dev_ok nd mx r1 idev); [eapply Inv_G; eauto|eapply valid_dev_range; eauto].
